@@ -8,6 +8,7 @@ that is not recognised raises ExtractError, which the checks treat as "tie broke
 Generated files are rewritten only when their content changes (keeps lake incremental).
 """
 import hashlib
+import json
 import os
 import re
 import subprocess
@@ -525,8 +526,111 @@ CFG_FIELDS = ["TAG", "GUID", "AuthKey", "Server", "Email", "Username", "Location
               "AdditionalTimeMargin", "zero"]
 
 
+def c_literal_bytes(lits):
+    """the bytes of a sequence of adjacent C string literals"""
+    out = bytearray()
+    for lit in lits:
+        body = lit[1:-1]
+        i = 0
+        while i < len(body):
+            ch = body[i]
+            if ch == "\\":
+                nx = body[i + 1]
+                simple = {"n": 10, "r": 13, "t": 9, "\\": 92, '"': 34, "'": 39, "0": 0}
+                if nx in simple:
+                    out.append(simple[nx])
+                    i += 2
+                else:
+                    raise ExtractError("page template: escape \\%s not handled" % nx)
+            else:
+                out += ch.encode("utf-8")
+                i += 1
+    return bytes(out)
+
+
+def page_fit(name, t):
+    """the numbers that decide whether the page of a SUPLA variant fits the buffer allocated for it:
+    bufflen = sum of strlen(...) + constant; the page = html_template with its directives expanded"""
+    lit = r'"(?:\\.|[^"\\])*"'
+    m1 = re.search(r"char html_template_header\[\] =((?:\s*%s)+)\s*;" % lit, t)
+    m2 = re.search(r"char html_template\[\] =((?:\s*%s)+)\s*;" % lit, t)
+    mb = re.search(r"int bufflen =([^;]*);", t)
+    if not (m1 and m2 and mb):
+        raise ExtractError("page variant %s: template / bufflen not recognised" % name)
+    header = c_literal_bytes(re.findall(lit, m1.group(1)))
+    tmpl = c_literal_bytes(re.findall(lit, m2.group(1)))
+    # bufflen terms
+    terms = [x.strip() for x in mb.group(1).split("+")]
+    slack, summed, has_fmt = 0, [], False
+    for x in terms:
+        if re.fullmatch(r"\d+", x):
+            slack += int(x)
+        else:
+            mm = re.fullmatch(r"strlen\((.*)\)", x, re.S)
+            if not mm:
+                raise ExtractError("page variant %s: bufflen term not recognised: %s" % (name, x))
+            term = re.sub(r"\s+", "", mm.group(1))
+            if term == "html_template":      # that term is fmtLen
+                has_fmt = True
+            else:
+                summed.append(term)
+    if not has_fmt:
+        raise ExtractError("page variant %s: strlen(html_template) is not part of bufflen" % name)
+    # the snprintf call that prints html_template
+    mc = None
+    for m in re.finditer(r"ets_snprintf\s*\(", t):
+        depth, j = 1, m.end()
+        while depth and j < len(t):
+            depth += t[j] == "("
+            depth -= t[j] == ")"
+            j += 1
+        a = split_args(t[m.end():j - 1])
+        if len(a) >= 3 and a[0] == "buffer" and a[1] == "bufflen" and a[2] == "html_template":
+            mc = a[3:]
+    if mc is None:
+        raise ExtractError("page variant %s: the call printing html_template into buffer/bufflen was not found" % name)
+    # directives of the template
+    dirs, lit_out, i = [], 0, 0
+    while i < len(tmpl):
+        if tmpl[i:i + 1] == b"%":
+            mm = re.match(rb"%(%|s|02X|i|d|u)", tmpl[i:])
+            if not mm:
+                raise ExtractError("page variant %s: directive not handled at %r" % (name, tmpl[i:i + 6]))
+            if mm.group(1) == b"%":
+                lit_out += 1
+            else:
+                dirs.append(mm.group(1).decode())
+            i += len(mm.group(0))
+        else:
+            lit_out += 1
+            i += 1
+    if len(dirs) != len(mc):
+        raise ExtractError("page variant %s: %d directives but %d arguments" % (name, len(dirs), len(mc)))
+    n_hex, const_max, printed = 0, 0, []
+    for d, a in zip(dirs, mc):
+        a1 = re.sub(r"\s+", "", a)
+        if d == "02X":
+            if not a1.startswith("(unsignedchar)"):
+                raise ExtractError("page variant %s: %%02X argument is not cast to unsigned char: %s" % (name, a))
+            n_hex += 1
+        elif d == "s":
+            tern = re.fullmatch(r'.*\?\s*(%s)\s*:\s*(%s)' % (lit, lit), a.strip(), re.S)
+            if tern:
+                const_max += max(len(c_literal_bytes([tern.group(1)])), len(c_literal_bytes([tern.group(2)])))
+            elif re.fullmatch(lit, a.strip()):
+                const_max += len(c_literal_bytes([a.strip()]))
+            else:
+                printed.append(a1)
+        else:
+            raise ExtractError("page variant %s: numeric directive %%%s not expected in this page" % (name, d))
+    vars_ = sorted(set(printed) | set(summed))
+    return {"name": name, "fmtLen": len(tmpl), "hdrLen": len(header), "litOut": lit_out, "nHex": n_hex, "constMax": const_max,
+            "slack": slack, "vars": vars_, "printed": [printed.count(v) for v in vars_], "summed": [summed.count(v) for v in vars_]}
+
+
 def gen_html():
     rows = []
+    fits = []
     for name, rel, variant, extra in PAGE_VARIANTS:
         r = C.sh(["gcc", "-E", "-P", "-w"] + C.fw_flags(variant) + extra + [os.path.join(C.REPO, rel)])
         if r.returncode != 0:
@@ -564,6 +668,8 @@ def gen_html():
             if f not in CFG_FIELDS:
                 raise ExtractError("page variant %s: unknown config field %s" % (name, f))
         rows.append((name, fields, sorted(set(other))))
+        if name != "mqtt":
+            fits.append(page_fit(name, t))
     L = ["/- GENERATED by tools/extract.py from supla_esp_cfgmode_html.c / supla_esp_cfgmode_mqtt_html.c:",
          "   for every page variant, the configuration fields that appear in the argument lists of the",
          "   ets_snprintf calls that build the page - do not edit -/",
@@ -575,8 +681,17 @@ def gen_html():
     L += ["]", "", "/-- every configuration field the page-builder file reads anywhere (also outside argument lists) -/",
           "def pageAllRefs : List (String × List CfgField) := ["]
     L.append(",\n".join("  (\"%s\", [%s])" % (n, ", ".join(".%s" % f for f in o)) for n, _, o in rows))
+    L += ["]", "", "/-- per SUPLA page variant: length of html_template (fmtLen) and of html_template_header, literal output characters of",
+          "    the template, number of %02X directives (arguments cast to unsigned char), total maximum length of the constant",
+          "    string arguments, the constant added to bufflen, and per string variable (`vars`) how often it is printed and how",
+          "    often its strlen is part of bufflen -/",
+          "def pageFit : List PageFit := ["]
+    L.append(",\n".join('  { name := "%s", fmtLen := %d, hdrLen := %d, litOut := %d, nHex := %d, constMax := %d, slack := %d,\n    vars := [%s],\n    printed := %s, summed := %s }' % (
+        f["name"], f["fmtLen"], f["hdrLen"], f["litOut"], f["nHex"], f["constMax"], f["slack"],
+        ", ".join('"%s"' % v.replace('"', "'") for v in f["vars"]), f["printed"], f["summed"]) for f in fits))
     L += ["]", "", "end SuplaVerif.Gen", ""]
     write_if_changed(os.path.join(GEN, "Html.lean"), "\n".join(L))
+    json.dump(fits, open(os.path.join(C.BUILD, "page_fit.json"), "w"))
     # the field enumeration used by Model/Page.lean is fixed; check it is what the struct has
     k = run_probe("p_cfgfields", "\n".join('P("f_%s", sizeof(((SuplaEspCfg*)0)->%s));' % (f, f) for f in CFG_FIELDS),
                   variant="mqtt", includes_c=["supla_esp.h", "supla_esp_cfg.h"], extra_flags=["-DMQTT_SUPPORT_ENABLED"])
